@@ -37,3 +37,163 @@ pub fn c01_bit_depth_sample_conversion_total() {
         }
     }
 }
+
+const SIZE_DIST: [U32Dist; 4] = [U32Dist::Bits(1, 9), U32Dist::Bits(1, 13), U32Dist::Bits(1, 18), U32Dist::Bits(1, 30)];
+
+/// ISO/IEC 18181-1 A.4 aspect ratios of SizeHeader.
+fn spec_ratio_width(ratio: u32, height: u32) -> u64 {
+    let h = height as u64;
+    match ratio {
+        1 => h,
+        2 => h * 12 / 10,
+        3 => h * 4 / 3,
+        4 => h * 3 / 2,
+        5 => h * 16 / 9,
+        6 => h * 5 / 4,
+        _ => h * 2,
+    }
+}
+
+// @prop C14
+// @tier quick
+// @unit jxl_image::SizeHeader::parse (define_bundle conditional layout, compute_default_width)
+// @sym every encoding of SizeHeader: div8 form (5-bit sizes) or explicit form with every U32 selector, ratio 0..=7, any width/height values the selectors can express; 0..=3 junk bits before and junk after
+// @bound complete over the bundle
+// @oblig reported height and width equal what was written (width derived from the aspect-ratio code when ratio != 0); parsing stops exactly at the writer's bit
+#[kani::proof]
+#[kani::unwind(9)]
+pub fn c14_size_header_roundtrip() {
+    let lead: usize = kani::any();
+    kani::assume(lead <= 3);
+    let mut w = BitWriter::new();
+    w.put(kani::any::<u64>(), lead);
+    let div8: bool = kani::any();
+    let ratio: u32 = kani::any();
+    kani::assume(ratio <= 7);
+    let height: u32;
+    let mut width: u32 = 0;
+    w.put_bool(div8);
+    if div8 {
+        let h8: u32 = kani::any();
+        kani::assume(h8 >= 1 && h8 <= 32);
+        w.put((h8 - 1) as u64, 5);
+        height = 8 * h8;
+    } else {
+        let sel: usize = kani::any();
+        kani::assume(sel < 4);
+        height = kani::any();
+        kani::assume(put_u32(&mut w, SIZE_DIST, sel, height));
+    }
+    w.put(ratio as u64, 3);
+    if ratio == 0 {
+        if div8 {
+            let w8: u32 = kani::any();
+            kani::assume(w8 >= 1 && w8 <= 32);
+            w.put((w8 - 1) as u64, 5);
+            width = 8 * w8;
+        } else {
+            let sel: usize = kani::any();
+            kani::assume(sel < 4);
+            width = kani::any();
+            kani::assume(put_u32(&mut w, SIZE_DIST, sel, width));
+        }
+    }
+    let expect_bits = w.nbits;
+    w.put(kani::any::<u64>(), 9);
+    let bytes = w.bytes();
+    let mut bs = Bitstream::new(&bytes[..]);
+    bs.read_bits(lead).unwrap();
+    let sh = jxl_image::SizeHeader::parse(&mut bs, ()).unwrap();
+    assert!(sh.height == height);
+    if ratio == 0 {
+        assert!(sh.width == width);
+    } else {
+        assert!(sh.width as u64 == spec_ratio_width(ratio, height) & 0xffff_ffff);
+    }
+    assert!(bs.num_read_bits() == expect_bits);
+    kani::cover!(!div8 && ratio == 5 && height > 1 << 20, "16:9 ratio with a large explicit height");
+    kani::cover!(div8 && ratio == 0, "div8 form with explicit width");
+    core::mem::forget(sh);
+}
+
+// @prop C14
+// @tier quick
+// @unit jxl_image::BitDepth::parse
+// @sym every encoding: integer samples with every U32 selector (8, 10, 12, 1+u(6)) and float samples (32, 16, 24, 1+u(6) with 4-bit exponent width)
+// @bound complete over the bundle
+// @oblig accepted iff the format's validity rules hold (integer: bits <= 31; float: exponent bits 2..=8, mantissa bits 2..=23); reported values equal what was written; exact bit count
+#[kani::proof]
+#[kani::unwind(9)]
+pub fn c14_bit_depth_roundtrip() {
+    let mut w = BitWriter::new();
+    let float: bool = kani::any();
+    let sel: usize = kani::any();
+    kani::assume(sel < 4);
+    let bits: u32 = kani::any();
+    let mut exp_bits: u32 = 0;
+    w.put_bool(float);
+    if float {
+        kani::assume(put_u32(&mut w, [U32Dist::Val(32), U32Dist::Val(16), U32Dist::Val(24), U32Dist::Bits(1, 6)], sel, bits));
+        let e: u32 = kani::any();
+        kani::assume(e <= 15);
+        w.put(e as u64, 4);
+        exp_bits = e + 1;
+    } else {
+        kani::assume(put_u32(&mut w, [U32Dist::Val(8), U32Dist::Val(10), U32Dist::Val(12), U32Dist::Bits(1, 6)], sel, bits));
+    }
+    let expect_bits = w.nbits;
+    w.put(kani::any::<u64>(), 9);
+    let bytes = w.bytes();
+    let mut bs = Bitstream::new(&bytes[..]);
+    let r = BitDepth::parse(&mut bs, ());
+    let valid = if float {
+        exp_bits >= 2 && exp_bits <= 8 && bits >= exp_bits + 1 + 2 && bits - exp_bits - 1 <= 23
+    } else {
+        bits <= 31
+    };
+    match r {
+        Ok(d) => {
+            assert!(valid);
+            assert!(bs.num_read_bits() == expect_bits);
+            match d {
+                BitDepth::IntegerSample { bits_per_sample } => assert!(!float && bits_per_sample == bits),
+                BitDepth::FloatSample { bits_per_sample, exp_bits: e } => assert!(float && bits_per_sample == bits && e == exp_bits),
+            }
+            kani::cover!(float && bits == 16 && exp_bits == 5, "half-float samples");
+            kani::cover!(!float && bits == 31, "31-bit integer samples");
+        }
+        Err(e) => {
+            assert!(!valid);
+            core::mem::forget(e);
+        }
+    }
+}
+
+// @prop C14
+// @tier quick
+// @unit jxl_image::AnimationHeader::parse
+// @sym every encoding: tps numerator/denominator and loop count with every U32 selector and value, timecode flag
+// @bound complete over the bundle
+// @oblig all four fields equal what was written; exact bit count
+#[kani::proof]
+#[kani::unwind(9)]
+pub fn c14_animation_header_roundtrip() {
+    let mut w = BitWriter::new();
+    let (s0, s1, s2): (usize, usize, usize) = (kani::any(), kani::any(), kani::any());
+    kani::assume(s0 < 4 && s1 < 4 && s2 < 4);
+    let (num, den, loops): (u32, u32, u32) = (kani::any(), kani::any(), kani::any());
+    let tc: bool = kani::any();
+    kani::assume(put_u32(&mut w, [U32Dist::Val(100), U32Dist::Val(1000), U32Dist::Bits(1, 10), U32Dist::Bits(1, 30)], s0, num));
+    kani::assume(put_u32(&mut w, [U32Dist::Val(1), U32Dist::Val(1001), U32Dist::Bits(1, 8), U32Dist::Bits(1, 10)], s1, den));
+    kani::assume(put_u32(&mut w, [U32Dist::Val(0), U32Dist::Bits(0, 3), U32Dist::Bits(0, 16), U32Dist::Bits(0, 32)], s2, loops));
+    w.put_bool(tc);
+    let expect_bits = w.nbits;
+    w.put(kani::any::<u64>(), 9);
+    let bytes = w.bytes();
+    let mut bs = Bitstream::new(&bytes[..]);
+    let a = jxl_image::AnimationHeader::parse(&mut bs, ()).unwrap();
+    assert!(a.tps_numerator == num && a.tps_denominator == den && a.num_loops == loops && a.have_timecodes == tc);
+    assert!(bs.num_read_bits() == expect_bits);
+    kani::cover!(s2 == 3 && loops == u32::MAX, "32-bit loop count");
+    kani::cover!(s0 == 1 && s1 == 1, "1000/1001 ticks");
+}
